@@ -1248,7 +1248,12 @@ func (ndb *nodeDB) traverseOrphansWithRootkeyCache(cache *rootkeyCache, prevVers
 		}
 	}
 
-	return nil
+	// a node that could not be read ends the iteration early: the orphans seen so
+	// far are not all of them
+	if err := curIter.Error(); err != nil {
+		return err
+	}
+	return prevIter.Error()
 }
 
 // Close the nodeDB.
